@@ -1486,16 +1486,16 @@ func redact(s *string) {
 // Redacted returns a copy of the config with sensitive values redacted.
 // This is safe to log or display to users.
 func (c *Config) Redacted() *Config {
-	// Create a deep copy by marshaling and unmarshaling
-	data, err := yaml.Marshal(c)
-	if err != nil {
-		return c
-	}
-
-	redacted := &Config{}
-	if err := yaml.Unmarshal(data, redacted); err != nil {
-		return c
-	}
+	// Work on a copy of the struct and of every slice whose elements are
+	// modified below, so the original is left untouched. Secrets are blanked
+	// on this copy before anything is serialized: redaction does not depend on
+	// the values surviving a YAML round trip and can never fall back to
+	// returning the unredacted original.
+	cp := *c
+	cp.Peers = append([]PeerConfig(nil), c.Peers...)
+	cp.Listeners = append([]ListenerConfig(nil), c.Listeners...)
+	cp.SOCKS5.Auth.Users = append([]SOCKS5UserConfig(nil), c.SOCKS5.Auth.Users...)
+	redacted := &cp
 
 	// Redact global TLS key
 	redact(&redacted.TLS.Key)
@@ -1527,6 +1527,15 @@ func (c *Config) Redacted() *Config {
 	redact(&redacted.Management.PrivateKey)
 	redact(&redacted.Management.SigningPrivateKey)
 
+	// Detach the remaining reference fields from the original by a
+	// marshal/unmarshal deep copy of the already redacted config. If that
+	// round trip fails, the redacted copy above is returned as is.
+	if data, err := yaml.Marshal(redacted); err == nil {
+		deep := &Config{}
+		if err := yaml.Unmarshal(data, deep); err == nil {
+			return deep
+		}
+	}
 	return redacted
 }
 
